@@ -1,1 +1,44 @@
-(* C03 - to be filled *)
+(* C03 - each segment starts at the VRAM address the document requests: declarative definitions. *)
+From Slinky Require Import Model.Types Model.Runtime Model.Style Model.Script Model.Writer Model.LdSem.
+From Slinky Require Import Spec.C04.
+Local Open Scope string_scope.
+
+(* how many of the four address fields a segment sets *)
+Definition b2n (b : bool) : nat := if b then 1 else 0.
+
+Definition addr_fields (seg : segment) : nat :=
+  b2n (is_some (sg_fixed_vram seg)) + b2n (is_some (sg_fixed_symbol seg)) +
+  b2n (is_some (sg_follows_segment seg)) + b2n (is_some (sg_vram_class seg)).
+
+Definition at_most_one_addr (seg : segment) : Prop := addr_fields seg <= 1.
+
+(* the address expression [a] is the one the document asks for *)
+Definition AddrSpec (sty : style) (seg : segment) (a : option expr) : Prop :=
+  (forall v, sg_fixed_vram seg = Some v -> a = Some (EHex8 v)) /\
+  (forall s, sg_fixed_symbol seg = Some s -> a = Some (ERaw s)) /\
+  (forall f, sg_follows_segment seg = Some f -> a = Some (ESym (segment_vram_end sty f))) /\
+  (forall c, sg_vram_class seg = Some c -> a = Some (ESym (vram_class_start sty c))) /\
+  (sg_fixed_vram seg = None -> sg_fixed_symbol seg = None -> sg_follows_segment seg = None ->
+   sg_vram_class seg = None -> a = None).
+
+(* does the statement (or a statement of its body) set "." with an assignment ". = e"? *)
+Fixpoint sets_dot (s : stmt) : bool :=
+  match s with
+  | SAssign _ _ _ sym _ => String.eqb sym "."
+  | SOutSec _ _ _ _ _ body => existsb sets_dot body
+  | SSections body => existsb sets_dot body
+  | _ => false
+  end.
+
+(* the statement of single-segment mode that sets the start address *)
+Definition single_start (seg : segment) : list stmt :=
+  match sg_fixed_vram seg with
+  | Some v => [SAssign false false false "." (EHex8 v)]
+  | None => []
+  end.
+
+(* the VRAM symbols of one segment are assigned once *)
+Definition vram_names_distinct (sty : style) (name : string) (l : list stmt) : bool :=
+  defined_once (segment_vram_start sty name) l &&
+  defined_once (segment_vram_end sty name) l &&
+  defined_once (segment_vram_size sty name) l.
